@@ -21,13 +21,15 @@ FRAGMENTS = [
     ("[13CH3]C", "s"), ("C[13C](=O)OC", ""), ("[2H]C", "s"), ("CC(C)(C(=O)OC)", "t"), ("CC(C(=O)OC)", "t"), ("C(=O)", "s"), ("CCOCC", "t"),
 ]
 SINGLE_ATOM_ENDS = ["[H]", "F", "Cl", "Br", "O", "N", "C", "S", "I"]
-_BRACKET_CAP = {"[H]": 1, "[Si]": 4, "[2H]": 1}
+_BRACKET_CAP = {"[Si]": 4}
 
 
 @lru_cache(maxsize=None)
 def fragment_info(smi):
     """(n_atoms, capacity per written atom, heavy mass)"""
-    mol = Chem.MolFromSmiles(smi)
+    params = Chem.SmilesParserParams()
+    params.removeHs = False  # written hydrogens are atoms of the notation
+    mol = Chem.MolFromSmiles(smi, params)
     tok = parse_fragment(smi)
     atoms = tok.atoms
     if mol is None or mol.GetNumAtoms() != len(atoms):
